@@ -162,9 +162,11 @@ class StmtMixin:
         return [(st, None)]
 
     def cur_attr(self, st, name):
+        name = self.attr_alias(name)
         return st.ghost.get(("H", name)) or self.attr_fun(name)
 
     def heap_store(self, st, name, obj_t, val_t):
+        name = self.attr_alias(name)
         old = self.cur_attr(st, name)
         new = self.declare_fun(fresh_name("H_" + name.replace("__", "dd_")), ["V"], "V")
         o = fresh_name("o")
